@@ -270,6 +270,8 @@ func (P) Generate(g *hx.Gen) {
 			return "short:1"
 		case 4:
 			return "short:0" // exactly the record length: the write fits, nothing fails
+		case 5:
+			return "nofile" // no file descriptor left: the temp file cannot be created (EMFILE)
 		default:
 			return fmt.Sprintf("short:%d", 1+g.Rng.Intn(1200))
 		}
@@ -307,6 +309,95 @@ func (P) Generate(g *hx.Gen) {
 			ops = append(ops, "show")
 			g.Count("fail:sweep-cases")
 			g.Case(fmt.Sprintf("failed save sweep short:%d..", base), ops, true)
+		}
+	}
+
+	// ---- (G) the other methods of the signing interface: heartbeats, SignData, Reset, UpdatePrikey; hostile chain ids -----
+	chains := []string{"c", "", "c\",\"@type\":\"vote", "{\"@chain_id\":\"c\"}", "\\", "\u00e9\n<&>"}
+	hbLine := func(chain string, h uint64, r, seq, vidx int) string {
+		return fmt.Sprintf("signheartbeat chain=%s h=%d r=%d seq=%d vidx=%d", hx.Hex([]byte(chain)), h, r, seq, vidx)
+	}
+	for k := 0; k < g.Pick(30, 300); k++ {
+		s := &seqGen{g: g}
+		chain := chains[g.Rng.Intn(len(chains))]
+		ops := []string{"case", "init"}
+		n := 5 + g.Rng.Intn(8)
+		for i := 0; i < n; i++ {
+			switch r := g.Rng.Intn(10); {
+			case r < 4:
+				q := s.next()
+				q.chain = chain
+				ops = append(ops, q.line())
+			case r < 7:
+				hc := chain
+				if g.Rng.Intn(3) == 0 {
+					hc = chains[g.Rng.Intn(len(chains))]
+				}
+				ops = append(ops, hbLine(hc, []uint64{0, 1, s.cur.h, math.MaxUint64}[g.Rng.Intn(4)], []int{0, s.cur.r, -1, math.MaxInt32}[g.Rng.Intn(4)], g.Rng.Intn(3), []int{0, -1, 7}[g.Rng.Intn(3)]))
+				g.Count("op:heartbeat")
+			case r < 9:
+				ops = append(ops, fmt.Sprintf("signdata nonce=%d type=%d min=%d signers=%d", []uint64{0, 1, 1 << 40}[g.Rng.Intn(3)], g.Rng.Intn(4), g.Rng.Intn(100), g.Rng.Intn(4)))
+				g.Count("op:signdata-multisign")
+			default:
+				ops = append(ops, "crash")
+			}
+		}
+		ops = append(ops, "domains")
+		g.Count("chain:" + hx.Hex([]byte(chain)))
+		g.Case("other-domains", ops, true)
+	}
+	// SignData is an unrestricted signing oracle for an in-process caller (tag oracle: shown, not alarmed; oracle-strict alarms)
+	{
+		a := mkReq(hrs{5, 0, 2}, 1, 1000, "c")
+		b := mkReq(hrs{5, 0, 2}, 2, 1000, "c")
+		bsb := b.signBytes()
+		g.Case("signdata oracle", []string{hx.CaseOp("oracle"), "init", a.line(),
+			fmt.Sprintf("signdata raw=%s d=%s fc=brace", hx.Hex(bsb), digest(bsb)), b.line(), "show"}, true)
+	}
+	// Reset (CLI unsafe_reset_priv_validator) and UpdatePrikey
+	for k := 0; k < g.Pick(10, 100); k++ {
+		s := &seqGen{g: g}
+		ops := []string{"case", "init"}
+		for i := 0; i < 4+g.Rng.Intn(10); i++ {
+			switch r := g.Rng.Intn(12); {
+			case r == 0:
+				ops = append(ops, "reset")
+				g.Count("op:reset")
+			case r == 1 || r == 2:
+				ops = append(ops, fmt.Sprintf("updatekey k=%d", g.Rng.Intn(3)))
+				g.Count("op:updatekey")
+			case r == 3:
+				ops = append(ops, "crash")
+			default:
+				ops = append(ops, s.next().line())
+			}
+		}
+		ops = append(ops, "show")
+		g.Case("reset-updatekey", ops, true)
+	}
+	// damaged key files: LoadOrGenFilePV in child processes (cmn.Exit sleeps 2.3 s: few cases)
+	for k := 0; k < g.Pick(1, 4); k++ {
+		ops := []string{"case", "init"}
+		if k != 1 {
+			ops = append(ops, mkReq(hrs{uint64(3 + k), 1, 2 + k%2}, 1, 100, "c").line())
+		}
+		ops = append(ops, "loadbad")
+		g.Count("op:loadbad")
+		g.Case("damaged key files", ops, true)
+	}
+	// records whose sign-bytes are not canonical JSON (damaged / hand-edited file): the same-HRS rule must not sign
+	rawRecords := [][]byte{[]byte("not json at all"), {}, []byte(`{"@chain_id":"c","@type":"vote","block_id":{},"height":"4","round":"1"`),
+		[]byte(`{"@chain_id":"c","@type":"vote","block_id":{},"height":"4","round":"1","timestamp":"yesterday","type":1}`),
+		[]byte(`{"@chain_id":"c","@type":"proposal","block_parts_header":{},"height":"4","pol_block_id":{},"pol_round":"-1","round":"1","timestamp":"12:00"}`)}
+	for i, raw := range rawRecords {
+		for st := 1; st <= 3; st++ {
+			if len(raw) == 0 {
+				continue
+			}
+			rec := fmt.Sprintf("setrec lh=4 lr=1 ls=%d rawsb=%s sb=%s core=%s ts=- bad=1", st, hx.Hex(raw), digest(raw), digest([]byte("unparsable")))
+			g.Count("op:setrec-raw-signbytes")
+			g.Case(fmt.Sprintf("non-canonical stored sign-bytes #%d step %d", i, st), []string{hx.CaseOp("badrecord"), "init", rec,
+				mkReq(hrs{4, 1, st}, 1, 777, "c").line(), "show", mkReq(hrs{4, 0, st}, 1, 777, "c").line(), mkReq(hrs{4, 2, st}, 1, 777, "c").line(), "show"}, true)
 		}
 	}
 
